@@ -9,5 +9,5 @@ CONSTANTS
   Mut = "none"
 INIT Init
 NEXT Next
-INVARIANTS TypeOK Total Correct NoCurrencyDropped SumPreserved NothingInvented PlainIdentity RowsPreserved FreqOrdered
+INVARIANTS TypeOK Total Correct CorrectGen NoCurrencyDropped SumPreserved NothingInvented PlainIdentity RowsPreserved FreqOrdered
 CHECK_DEADLOCK FALSE
